@@ -181,7 +181,7 @@ def r1(ctx):
             ctx.violation("%s/meaning" % ("convert_like_to_pattern" if "like" in pr.split("(")[0] else "convert_glob_to_pattern"), ctx.where(LIKE if "like" in pr.split("(")[0] else GLOB), pr)
         return
     except interp.Undecided as e:
-        ctx.note = getattr(ctx, "note", None)      # read the escape tables structurally instead
+        ctx.covered("evaluation of the pattern translators gave up (%s); the escape tables are read structurally instead" % str(e)[:200], 0)
     for fn in (GLOB, LIKE):
         rx, t, tmpl, hir = translator_table(ctx, fn)
         name = short(fn, 1)
